@@ -589,3 +589,88 @@ Proof.
       cbn [bin_prefix]. now rewrite app_nil_r. }
   subst left. rewrite app_nil_r in Ht. eauto.
 Qed.
+
+(** * Reads after the end of the stream
+
+    sideConn.Read does not remember that it has reported the end: the text
+    message is consumed by nextReader and the next Read calls NextReader
+    again.  Whether such a later Read returns depends on the websocket alone:
+    once the connection is closed (a close frame or a lost connection, both
+    sticky in gorilla's NextReader) every Read returns; while it stays open
+    and silent a later Read blocks. *)
+
+Definition is_sticky (m : msg) : bool :=
+  match m with MClose _ | MErr => true | _ => false end.
+Definition has_sticky (l : list msg) : bool := existsb is_sticky l.
+
+Lemma next_reader_sticky s e s' :
+  has_sticky (s_in s) = true -> next_reader s = (e, s') ->
+  e <> SBlock /\ has_sticky (s_in s') = true.
+Proof.
+  unfold next_reader. destruct (s_in s) as [|[b| |code|] r] eqn:E; cbn [has_sticky existsb is_sticky orb].
+  - discriminate.
+  - intros H [= <- <-]. split; [discriminate|exact H].
+  - intros H [= <- <-]. split; [discriminate|exact H].
+  - intros _. destruct (existsb (N.eqb code) close_codes_tested); [destruct (code =? close_normal)|];
+      intros [= <- <-]; (split; [discriminate|rewrite E; reflexivity]).
+  - intros _ [= <- <-]. split; [discriminate|rewrite E; reflexivity].
+Qed.
+
+Lemma side_read_loop_sticky m : forall fuel ks r s got e s' ks',
+  has_sticky (s_in s) = true ->
+  side_read_loop fuel m ks r s = (got, e, s', ks') ->
+  e <> SBlock /\ has_sticky (s_in s') = true.
+Proof.
+  induction fuel as [|f IH]; intros ks r s got e s' ks' Hs; cbn [side_read_loop];
+    destruct (match ks with [] => (m, false) | x :: _ => x end) as [k we];
+    destruct (msg_read m k we r) as [[g eof] rest];
+    destruct eof; cbn [negb].
+  - destruct g.
+    + destruct (next_reader (mkS None (s_in s))) as [e1 s1] eqn:En.
+      destruct (next_reader_sticky (mkS None (s_in s)) _ _ Hs En) as [Hb Hs1].
+      destruct e1; try contradiction; intros [= <- <- <- <-]; (split; [discriminate|assumption]).
+    + intros [= <- <- <- <-]. split; [discriminate|exact Hs].
+  - intros [= <- <- <- <-]. split; [discriminate|exact Hs].
+  - destruct g.
+    + destruct (next_reader (mkS None (s_in s))) as [e1 s1] eqn:En.
+      destruct (next_reader_sticky (mkS None (s_in s)) _ _ Hs En) as [Hb Hs1].
+      destruct e1.
+      * destruct (s_cur s1) as [r'|]; [apply IH; exact Hs1|].
+        intros [= <- <- <- <-]. split; [discriminate|assumption].
+      * intros [= <- <- <- <-]. split; [discriminate|assumption].
+      * intros [= <- <- <- <-]. split; [discriminate|assumption].
+      * contradiction.
+      * intros [= <- <- <- <-]. split; [discriminate|assumption].
+    + intros [= <- <- <- <-]. split; [discriminate|exact Hs].
+  - intros [= <- <- <- <-]. split; [discriminate|exact Hs].
+Qed.
+
+(** Once the websocket is closed, no Read blocks - not the pending one, not
+    any later one (the closed state persists). *)
+Theorem side_read_closed_never_blocks m ks s got e s' ks' :
+  has_sticky (s_in s) = true ->
+  side_read m ks s = (got, e, s', ks') ->
+  e <> SBlock /\ has_sticky (s_in s') = true.
+Proof.
+  intros Hs. unfold side_read. destruct (s_cur s) as [r|].
+  - apply side_read_loop_sticky. exact Hs.
+  - destruct (next_reader s) as [e1 s1] eqn:En.
+    destruct (next_reader_sticky _ _ _ Hs En) as [Hb Hs1].
+    destruct e1.
+    + destruct (s_cur s1) as [r|]; [apply side_read_loop_sticky; exact Hs1|].
+      intros [= <- <- <- <-]. split; [discriminate|assumption].
+    + intros [= <- <- <- <-]. split; [discriminate|assumption].
+    + intros [= <- <- <- <-]. split; [discriminate|assumption].
+    + contradiction.
+    + intros [= <- <- <- <-]. split; [discriminate|assumption].
+Qed.
+
+(** The end marker is consumed by the Read that reports it ... *)
+Lemma text_marker_is_forgotten m ks r :
+  side_read m ks (mkS None (MText :: r)) = ([], SEof, mkS None r, ks).
+Proof. reflexivity. Qed.
+
+(** ... so while the websocket stays open and silent, a later Read blocks. *)
+Theorem later_read_blocks_while_open m ks :
+  side_read m ks (mkS None []) = ([], SBlock, mkS None [], ks).
+Proof. reflexivity. Qed.
